@@ -198,16 +198,16 @@ func (r *chanRun) authenticate(ctx context.Context, id lime.Identity, a lime.Aut
 		rtA.SetPasswordAsBase64("challenge")
 		return &lime.AuthenticationResult{Role: lime.DomainRoleUnknown, RoundTrip: rtA}, nil
 	}
-	return nil, errors.New("authenticate callback failed")
+	return nil, CallbackErr(r.c.N, "authenticate callback failed")
 }
 
 func (r *chanRun) register(ctx context.Context, n lime.Node, c *lime.ServerChannel) (lime.Node, error) {
 	out := r.nextOutcome(&r.regQ, "ok")
 	r.log(tr.Event{K: "reg", Ident: identClass(n.Name), Res: out})
 	if out == "ok" {
-		return RegNode, nil
+		return RegFor(r.c.N), nil
 	}
-	return lime.Node{}, errors.New("register callback failed")
+	return lime.Node{}, CallbackErr(r.c.N, "register callback failed")
 }
 
 func probeMsg() *lime.Message {
